@@ -501,6 +501,92 @@ static void sub_scale() {
     }
 }
 
+//---------------------------------------------------------------------------
+// invariant: exactly invariant subspaces ("lucky breakdown").  Block-diagonal systems with small (Gaussian-)integer entries: an m x m upper-Hessenberg
+// block B (tridiagonal Hermitian pd for CG) with non-zero subdiagonal, m in {1,2,3}, placed on random indices, and an integer diagonally dominant
+// remainder.  The initial residual is c e_first (c a power of two times a unit), so the Arnoldi / Lanczos vectors are exact unit vectors, every vector
+// stays exactly inside the block and the (m+1)-th Krylov vector is an exact floating-point zero (H(m+1,m) == 0).  Preconditioner: identity, or the exact
+// inverse on the block (blocks are drawn until B^-1 is exactly representable).  Every method must return the solution within m iterations (+L-1 for
+// BiCGStab(L), + ceil(m/s) for IDR(s); Richardson: one step with the exact preconditioner); a breakdown exception is acceptable only if the iterate it
+// leaves behind already satisfies the tolerance.
+//---------------------------------------------------------------------------
+static L gint(Rng &r, int lo, int hi, bool nz = false) { for (;;) { R a = (R)r.range(lo, hi), b = 0;
+#ifdef C05_COMPLEX
+        b = (R)r.range(lo, hi);
+#endif
+        if (!nz || a != 0 || b != 0) return mkL(a, b); } }
+static void sub_invariant() {
+    long N = vf::tier(90, 1800);
+    for (long idx = 0; idx < N; ++idx) {
+        if (!vf::selected("invariant", idx)) continue;
+        Rng r(vf::case_seed("invariant", idx)); int m = 1 + (int)(idx % 3); bool spd = (idx / 3) % 2 == 0; bool exactP = (idx / 6) % 2; bool x0zero = (idx / 12) % 2 == 0;
+        int n = (int)r.range(m + 3, 12); Mat Bm, Bi; bool ok = false;
+        for (int attempt = 0; attempt < 2000 && !ok; ++attempt) {
+            Bm = Mat::Zero(m, m);
+            if (spd) { for (int i = 0; i < m; ++i) Bm(i, i) = mkL((R)r.range(1, 4), 0); for (int i = 0; i + 1 < m; ++i) { L o = gint(r, -2, 2, true); Bm(i + 1, i) = o;
+#ifdef C05_COMPLEX
+                    Bm(i, i + 1) = std::conj(o);
+#else
+                    Bm(i, i + 1) = o;
+#endif
+                } Eigen::LLT<Mat> llt(Bm); if (llt.info() != Eigen::Success) continue; }
+            else { for (int i = 0; i < m; ++i) for (int j = 0; j < m; ++j) if (j + 1 >= i) Bm(i, j) = gint(r, -3, 3); for (int i = 0; i + 1 < m; ++i) Bm(i + 1, i) = gint(r, -3, 3, true); }
+            Eigen::FullPivLU<Mat> lu(Bm); if (!lu.isInvertible()) continue; Bi = lu.inverse();
+            // exact inverse wanted: round to multiples of 1/8 and verify B Bi == I exactly
+            for (int i = 0; i < m; ++i) for (int j = 0; j < m; ++j) { std::complex<R> z = Bi(i, j); Bi(i, j) = mkL(std::round(z.real() * 8) / 8, std::round(z.imag() * 8) / 8); }
+            Mat T = Bm * Bi - Mat::Identity(m, m); if (T.cwiseAbs().maxCoeff() != 0) continue;
+            if (Bm.cwiseAbs().maxCoeff() * Bi.cwiseAbs().maxCoeff() > 60) continue;           // keep the block well conditioned
+            ok = true;
+        }
+        if (!ok) { fprintf(stderr, "c05 invariant: no exactly invertible block found\n"); exit(3); }
+        // placement and remainder
+        std::vector<int> perm(n); for (int i = 0; i < n; ++i) perm[i] = i; r.shuffle(perm); std::vector<int> bi(perm.begin(), perm.begin() + m), rest(perm.begin() + m, perm.end());
+        System s; s.n = n; s.spd = spd; s.kappa = 0; s.distinct = m; s.akind = spd ? "integer-block-hpd" : "integer-block-hessenberg"; s.pkind = exactP ? "exact-on-block" : "identity";
+        s.A = Mat::Zero(n, n); s.P = Mat::Identity(n, n);
+        for (int i = 0; i < m; ++i) for (int j = 0; j < m; ++j) { s.A(bi[i], bi[j]) = Bm(i, j); if (exactP) s.P(bi[i], bi[j]) = Bi(i, j); }
+        for (size_t i = 0; i < rest.size(); ++i) { s.A(rest[i], rest[i]) = mkL(6, 0); if (i + 1 < rest.size()) { L o = gint(r, -1, 1); s.A(rest[i], rest[i + 1]) = o;
+#ifdef C05_COMPLEX
+                s.A(rest[i + 1], rest[i]) = std::conj(o);
+#else
+                s.A(rest[i + 1], rest[i]) = o;
+#endif
+            } if (exactP) s.P(rest[i], rest[i]) = mkL(0.125, 0); }
+        s.x0 = Vec::Zero(n); s.x0v.assign(n, S()); if (!x0zero) for (int i = 0; i < n; ++i) { L v = gint(r, -3, 3); s.x0[i] = v; s.x0v[i] = roundS(v); }
+        L cc = mkL(0, 0); { R mag = std::ldexp((R)1, (int)r.range(-3, 4)); int u4 = (int)r.range(0, 3);
+#ifdef C05_COMPLEX
+            cc = u4 == 0 ? L(mag, 0) : u4 == 1 ? L(-mag, 0) : u4 == 2 ? L(0, mag) : L(0, -mag);
+#else
+            cc = (u4 % 2) ? -mag : mag;
+#endif
+        }
+        Vec g = Vec::Zero(n); g[bi[0]] = cc; s.f = s.A * s.x0 + g; s.fv.resize(n); for (int i = 0; i < n; ++i) { s.fv[i] = roundS(s.f[i]); if (widen(s.fv[i]) != s.f[i]) { fprintf(stderr, "c05 invariant: inexact rhs\n"); exit(3); } }
+        Vec xb = Vec::Zero(n); { Vec gb(m); gb.setZero(); gb[0] = cc; Vec yb = Bi * gb; for (int i = 0; i < m; ++i) xb[bi[i]] = yb[i]; } s.xs = s.x0 + xb;
+        { Vec chk = s.A * s.xs - s.f; if (chk.cwiseAbs().maxCoeff() != 0) { fprintf(stderr, "c05 invariant: reference solution not exact\n"); exit(3); } }
+        std::vector<ptrdiff_t> ptr(1, 0), col; std::vector<S> val;
+        for (int i = 0; i < n; ++i) { for (int j = 0; j < n; ++j) { col.push_back(j); val.push_back(roundS(s.A(i, j))); } ptr.push_back((ptrdiff_t)col.size()); }
+        s.prec.n = n; s.prec.P = s.P; s.prec.A = std::make_shared<M>(std::make_tuple((size_t)n, ptr, col, val));
+        Case c("invariant", idx, sysdesc(s).n("m", m)); R nf = s.f.norm(), sc = std::max<R>(1, s.xs.cwiseAbs().maxCoeff()); size_t mm = exactP ? 1 : (size_t)m;   // with the exact block inverse P A = I on the block
+        auto verdict = [&](const std::string &name, const Run &o, size_t bud) {
+            Vec xk = to_vec(o.x); double tr = (double)((s.f - s.A * xk).norm() / nf); double err = (double)((xk - s.xs).cwiseAbs().maxCoeff() / sc);
+            if (o.threw) { c.check(allfinite(o.x) && tr < 1e-8, name + ":exception-before-convergence", "breakdown exception although the iterate left behind does not satisfy the tolerance: " + o.what, J().n("true", tr).n("m", m)); return; }
+            c.check(allfinite(o.x) && std::isfinite(o.res) && tr < 1e-7 && err < 1e-7 && o.iters <= bud, name + ":invariant-subspace-not-exploited", "initial residual spans an exactly invariant subspace of dimension m: the method did not return the solution within its budget",
+                    J().n("m", m).n("iters", o.iters).n("budget", bud).n("reported", o.res).n("true", tr).n("error", err));
+            vf::obs_sum("method_k_pairs"); c.nontrivial();
+        };
+        const size_t MAXIT = 60;
+        if (spd) { amgcl::solver::cg<B>::params p; p.maxiter = MAXIT; amgcl::solver::cg<B> Sv(n, p); verdict("cg", run(Sv, s), mm); }
+        for (int left = 0; left < 2; ++left) { std::string sd = left ? "-left" : ""; auto ps = left ? side::left : side::right;
+            { amgcl::solver::bicgstab<B>::params p; p.maxiter = MAXIT; p.pside = ps; amgcl::solver::bicgstab<B> Sv(n, p); verdict("bicgstab" + sd, run(Sv, s), mm); }
+            for (int Lp : {1, 2, 4}) { amgcl::solver::bicgstabl<B>::params p; p.L = Lp; p.maxiter = MAXIT; p.pside = ps; amgcl::solver::bicgstabl<B> Sv(n, p); verdict("bicgstabl(L=" + std::to_string(Lp) + ")" + sd, run(Sv, s), mm + Lp - 1); }
+            for (int Mr : {2, 30}) { amgcl::solver::gmres<B>::params p; p.M = Mr; p.maxiter = MAXIT; p.pside = ps; amgcl::solver::gmres<B> Sv(n, p); verdict("gmres(M=" + std::to_string(Mr) + ")" + sd, run(Sv, s), Mr >= (int)mm ? mm : MAXIT); }
+            for (int Kr : {0, 2}) { amgcl::solver::lgmres<B>::params p; p.M = 4; p.K = Kr; p.maxiter = MAXIT; p.pside = ps; amgcl::solver::lgmres<B> Sv(n, p); verdict("lgmres(K=" + std::to_string(Kr) + ")" + sd, run(Sv, s), mm); }
+        }
+        { amgcl::solver::fgmres<B>::params p; p.M = 5; p.maxiter = MAXIT; amgcl::solver::fgmres<B> Sv(n, p); verdict("fgmres", run(Sv, s), mm); }
+        { unsigned sv = (unsigned)(1 + (idx / 24) % 6); amgcl::solver::idrs<B>::params p; p.s = sv; p.maxiter = MAXIT; amgcl::solver::idrs<B> Sv(n, p); verdict("idrs", run(Sv, s), mm + (mm + sv - 1) / sv); }
+        if (exactP) { amgcl::solver::richardson<B>::params p; p.maxiter = MAXIT; amgcl::solver::richardson<B> Sv(n, p); verdict("richardson", run(Sv, s), 1); }
+    }
+}
+
 int main(int argc, char **argv) {
     vf::init(argc, argv);
     vf::obs_add("value_types", VT);
@@ -514,5 +600,6 @@ int main(int argc, char **argv) {
     if (vf::sub_enabled("richardson")) sub_richardson();
     if (vf::sub_enabled("termination")) sub_termination();
     if (vf::sub_enabled("scale")) sub_scale();
+    if (vf::sub_enabled("invariant")) sub_invariant();
     return vf::finish();
 }
